@@ -274,7 +274,11 @@ class TypeParser:
                             params.append(TypeParser(self.resolve).parse(p) if False else self._sub(p))
                     # trailing qualifiers of a function type
                     while True:
-                        if self._eat('const') or self._eat('noexcept') or self._eat('volatile'):
+                        if self._eat('noexcept'):
+                            if self._peek('('):
+                                self._balanced('(', ')')
+                            continue
+                        if self._eat('const') or self._eat('volatile'):
                             continue
                         self._ws()
                         if self._peek('&&') and self.i + 2 >= len(self.s):
